@@ -1139,3 +1139,35 @@ def _mk_set_method(op):
 TABLE['set.intersection'] = _mk_set_method('BitAnd')
 TABLE['set.union'] = _mk_set_method('BitOr')
 TABLE['set.difference'] = _mk_set_method('Sub')
+
+
+# ---- standard normal matrices (LSH hyperplanes): one draw of a whole (rows x cols) matrix
+draw_snm = F('draw_standard_normal', Rng, Int, Int, Mat)
+next_snm = F('next_standard_normal', Rng, Int, Int, Rng)
+_r2, _c2 = z3.Ints('r2 c2')
+axiom('draw_standard_normal.shape', forall([_s, _r2, _c2], z3.Implies(z3.And(_r2 >= 0, _c2 >= 0), z3.And(
+    mrows(draw_snm(_s, _r2, _c2)) == _r2, mcols(draw_snm(_s, _r2, _c2)) == _c2)), [draw_snm(_s, _r2, _c2)]),
+    ['draw_standard_normal'], 'numpy')
+
+
+@reg('np.Generator.standard_normal')
+def _gen_standard_normal(lib, run, recv, args, kw):
+    s = _rs(run, recv)
+    size = _size(kw.get('size', args[0] if args else None))
+    if size is None or size[0] != 'mn':
+        raise Unsupported('standard_normal size')
+    run.st.draws.append(('standard_normal', size[1], size[2]))
+    _set_rs(run, recv, next_snm(s, size[1], size[2]))
+    return MatV(draw_snm(s, size[1], size[2]))
+
+
+class EmptyTabV(Val):
+    """defaultdict(list): a dictionary whose every key holds the empty list until something is stored"""
+    tag = 'emptytab'
+
+
+@reg('collections.defaultdict')
+def _defaultdict(lib, run, recv, args, kw):
+    if len(args) == 1 and isinstance(args[0], LibRef) and args[0].name == 'builtins.list':
+        return EmptyTabV()
+    raise Unsupported('defaultdict with a factory other than list')
